@@ -1,8 +1,189 @@
 package props
 
-import "testing"
+import (
+	"context"
+	"encoding/json"
+	"fmt"
+	"sync"
+	"testing"
+	"time"
 
-// engine B of C34 (free-running under the race detector); see c34_concurrent.go
+	"github.com/zmap/zcrypto/tls"
+	"verifsim/kit"
+	"verifsim/vsync"
+)
+
+// Engine B of C34: the programs of c34_concurrent.go run as free-running
+// goroutines inside a synctest bubble, with the channel-based lock shim (a real
+// sync.Mutex held across a transport read would stall the bubble clock), the
+// bnet transport and the race detector. Pacing comes from seeded simulated
+// delays keyed by (task, operation); nothing is keyed on arrival order.
+
+type c34bTaskLog struct {
+	writes []c34WriteRec
+}
+
 func execC34B(t *testing.T, sc *c34Scenario, keepLog bool) *Outcome {
-	return &Outcome{Counters: map[string]int{}}
+	o := &Outcome{Counters: map[string]int{}, FreeRunning: true}
+	if !kit.RaceEnabledLog() {
+		// without the race detector's log there is nothing for engine B to decide
+		o.count("probe.raceB_skipped_no_race_log", 1)
+	}
+	finished := false
+	var recvs [2][]byte
+	logs := make([]*c34bTaskLog, len(sc.Tasks))
+	torn := make([]string, len(sc.Tasks))
+	var hsErrs [2]error
+	var simElapsed time.Duration
+	leak := kit.Bubble(t, func() {
+		t0 := time.Now()
+		vsync.Mode = vsync.ModeChan
+		defer func() { vsync.Mode = vsync.ModeReal }()
+		r := kit.NewRng(sc.Seed)
+		ecfg := EndCfg{MinVersion: sc.Version, MaxVersion: sc.Version, Suites: []uint16{sc.Suite}, ForceSuites: true, KeyKind: sc.Key, NoTickets: sc.Seed%3 == 0}
+		now := func() time.Time { return time.Now() }
+		p := pki()
+		kind := sc.Key
+		scfg := &tls.Config{Certificates: []tls.Certificate{tlsCert(p.Server[kind], true, keyOfKind[kind])}, MinVersion: sc.Version, MaxVersion: sc.Version, CipherSuites: ecfg.Suites,
+			SessionTicketsDisabled: ecfg.NoTickets, Time: now}
+		ccfg := &tls.Config{RootCAs: p.RootPool, ServerName: serverName, MinVersion: sc.Version, MaxVersion: sc.Version, CipherSuites: ecfg.Suites, ForceSuites: true, Time: now}
+		_ = r
+		ca, cb := kit.BPipe(sc.Net.Window)
+		lat := []time.Duration{0, 150 * time.Microsecond, 1500 * time.Microsecond}[sc.Seed%3]
+		ca.Latency, cb.Latency = lat, lat+time.Nanosecond
+		conns := [2]*tls.Conn{tls.Client(ca, ccfg), tls.Server(cb, scfg)}
+		var wg sync.WaitGroup
+		base := 20 * time.Second
+		for side := 0; side < 2; side++ {
+			side := side
+			c := conns[side]
+			wg.Add(1)
+			go func() {
+				defer wg.Done()
+				c.SetDeadline(time.Now().Add(base))
+				if sc.CancelMs > 0 && side == 0 {
+					ctx, cancel := context.WithCancel(context.Background())
+					time.AfterFunc(time.Duration(sc.CancelMs)*time.Millisecond, cancel)
+					hsErrs[side] = c.HandshakeContext(ctx)
+					cancel()
+				}
+				buf := make([]byte, sc.ReadBuf)
+				for {
+					n, err := c.Read(buf)
+					recvs[side] = append(recvs[side], buf[:n]...)
+					if err != nil {
+						break
+					}
+				}
+				c.Close()
+			}()
+		}
+		wid := 0
+		for ti, tk := range sc.Tasks {
+			ti, tk := ti, tk
+			c := conns[tk.Side]
+			myWriter := wid
+			if tk.Kind == "writer" {
+				wid++
+			}
+			lg := &c34bTaskLog{}
+			logs[ti] = lg
+			wg.Add(1)
+			go func() {
+				defer wg.Done()
+				seq := 0
+				for oi, op := range tk.Ops {
+					// pacing: unique simulated delay per (task, op)
+					// (half of the operations start without any delay: true parallelism with whatever is running)
+					if pr := kit.NewRng(sc.Seed ^ uint64(ti*977+oi*13+5)); pr.Bool() {
+						time.Sleep(time.Duration(pr.Intn(4000))*time.Microsecond + time.Duration(ti*64+oi+1)*time.Nanosecond)
+					}
+					switch op.Op {
+					case "write":
+						pl := c34Payload(myWriter, seq, op.N)
+						lg.writes = append(lg.writes, c34WriteRec{Writer: myWriter, Seq: seq, Len: len(pl)})
+						seq++
+						if _, err := c.Write(pl); err != nil {
+							return
+						}
+					case "sleep":
+						time.Sleep(time.Duration(op.DelayMs) * time.Millisecond)
+					case "state":
+						st := c.ConnectionState()
+						if st.HandshakeComplete && (st.Version != sc.Version || st.CipherSuite != sc.Suite) {
+							torn[ti] = fmt.Sprintf("version %04x suite %04x", st.Version, st.CipherSuite)
+						}
+					case "handshake":
+						c.Handshake()
+					case "setdl":
+						c.SetDeadline(time.Now().Add(time.Duration(op.DelayMs+500) * time.Millisecond))
+					case "setrdl":
+						c.SetReadDeadline(time.Now().Add(time.Duration(op.DelayMs+500) * time.Millisecond))
+					case "setwdl":
+						c.SetWriteDeadline(time.Now().Add(time.Duration(op.DelayMs+500) * time.Millisecond))
+					case "closewrite":
+						c.CloseWrite()
+					case "close":
+						c.Close()
+						return
+					}
+				}
+			}()
+		}
+		wg.Wait()
+		finished = true
+		simElapsed = time.Since(t0)
+	})
+	o.SimTime = simElapsed
+	o.count("probe.raceB_runs", 1)
+	if sc.CancelMs > 0 {
+		o.count("probe.raceB_cancelled_handshakes", 1)
+	}
+	switch {
+	case !finished:
+		o.Fail = Failf("c34.blockedB", "goroutines never returned although every call has a deadline", "bubble ended with: %.400s", leak)
+	}
+	if o.Fail == nil {
+		for ti, s := range torn {
+			if s != "" {
+				o.Fail = Failf("c34.torn", "ConnectionState observed inconsistent handshake state", "task %d: %s", ti, s)
+			}
+		}
+	}
+	if o.Fail == nil {
+		for side := 0; side < 2; side++ {
+			var writes []c34WriteRec
+			for ti, tk := range sc.Tasks {
+				if tk.Side == 1-side && logs[ti] != nil {
+					writes = append(writes, logs[ti].writes...)
+				}
+			}
+			if f := checkTaggedStream(recvs[side], writes, false); f != nil {
+				f.Msg = fmt.Sprintf("engine B, direction %d→%d: %s", 1-side, side, f.Msg)
+				o.Fail = f
+				break
+			}
+			o.count("probe.bytes_received", len(recvs[side]))
+		}
+	}
+	for _, rr := range kit.RaceDelta() {
+		o.count("probe.race_reports", 1)
+		if rr.InHarness {
+			o.count("probe.race_in_harness", 1)
+			continue
+		}
+		if rr.InRepo && o.Fail == nil {
+			o.Fail = Failf("c34.race", "data race: "+rr.Sig, "%s", rr.Text)
+		}
+	}
+	h := kit.NewHash64()
+	// canonical log: what each direction received is schedule dependent in engine B; the fingerprint is the
+	// scenario plus the structural outcome only
+	b, _ := json.Marshal(sc)
+	h.Write(b)
+	h.WriteString(fmt.Sprint(finished))
+	o.LogHash = h.Sum()
+	o.Distinct = h.Sum()
+	o.Nontrivial = true
+	return o
 }
